@@ -419,3 +419,80 @@ func RunRendezvous(w *World, idx int) {
 	}
 	w.CheckImages()
 }
+
+// RunStaleMonitor: a replica fails an I/O and is detached, its process restarts
+// at once and is re-added and rebuilt at the same address - and only then the
+// monitor event of its *previous* attachment reaches the controller (the rpc
+// client reports a timed-out connection two seconds after the request failed).
+// That late event concerns an attachment that is gone: the new, healthy
+// attachment must stay.
+func RunStaleMonitor(w *World, idx int) {
+	if w.RF < 2 || w.Net {
+		RunIO(w, idx)
+		return
+	}
+	r := w.R
+	w.Cfg = map[string]interface{}{"rf": w.RF, "scenario": "stale-monitor-event"}
+	if !w.BringUp(w.RF, false) {
+		return
+	}
+	w.NonTrivial = true
+	for round := 0; round < 3 && !w.Dead; round++ {
+		fs, modes := w.Attached()
+		if len(fs) < 2 {
+			return
+		}
+		f := fs[r.Intn(len(fs))]
+		if modes[f] != types.RW {
+			continue
+		}
+		f.mu.Lock()
+		old := f.conn
+		f.mu.Unlock()
+		if old == nil {
+			return
+		}
+		release := make(chan struct{})
+		old.hold = release
+		// f fails a write: detached at once by the I/O path
+		o, l := w.RandRange()
+		w.IO("write", o, l, map[*Fake]Outcome{f: ErrNotApplied})
+		if w.Dead {
+			close(release)
+			return
+		}
+		// the process is back immediately; same address, new attachment, rebuilt
+		w.rec(Step{K: "restart", Addr: f.Addr, Note: "before the monitor event of its previous attachment was delivered"})
+		f.mu.Lock()
+		f.Alive, f.State, f.Mode, f.conn, f.Rebuilding = true, "closed", "INIT", nil, false
+		f.mu.Unlock()
+		if !w.AddSynced(f) {
+			close(release)
+			return
+		}
+		// now the old attachment's event arrives
+		w.rec(Step{K: "late-monitor-event", Addr: f.Addr})
+		old.InjectMonitor(fmt.Errorf("r/w timeout"))
+		close(release)
+		for i := 0; i < 200 && atomic.LoadInt32(&old.Delivered) == 0; i++ {
+			time.Sleep(time.Millisecond)
+		}
+		time.Sleep(5 * time.Millisecond)
+		w.Res.Count("late_monitor_events", 1)
+		st := w.C.VerifState()
+		still := false
+		for _, rp := range st.Replicas {
+			if rp.Address == f.Addr && rp.Mode == types.RW {
+				still = true
+			}
+		}
+		if !still {
+			w.FailAny([]string{"C05", "C18", "C02"}, "healthy-replica-detached:late-event-of-previous-attachment", fmt.Sprintf("%s was re-added and rebuilt; the monitor event of its previous attachment then arrived and the controller detached the new attachment: %s", f.Addr, digest(st, true)))
+			return
+		}
+		w.CheckSettled("late-monitor-event")
+		w.IO("write", o, l, nil)
+		w.readSweep()
+	}
+	w.CheckImages()
+}
